@@ -200,6 +200,7 @@ type chanWorld struct {
 	parentCancel          context.CancelFunc
 	parentDone            bool
 	excOn                 map[string]error
+	curMX                 map[string]bool // writers currently inside an MX call
 	lowErr                map[string]error
 	exceptions            []error
 }
@@ -241,7 +242,12 @@ func (p probe) HandleException(ctx netty.ExceptionContext, ex netty.Exception) {
 		if _, isWriter := p.w.ops[cur]; isWriter {
 			p.w.mapMu.Lock()
 			p.w.excOn[cur] = ex
+			mx := p.w.curMX[cur]
 			p.w.mapMu.Unlock()
+			if mx {
+				// the application's exception handler takes its time: other goroutines may raise exceptions meanwhile
+				p.w.s.Gate(p, "h.exc")
+			}
 			return
 		}
 	}
@@ -318,7 +324,7 @@ func (o *opRun) multi() bool { return len(o.chunks) > 1 }
 
 func isMsgKind(k string) bool {
 	switch k {
-	case "M", "MR", "MT", "MV", "MB", "MD", "MS":
+	case "M", "MR", "MT", "MV", "MB", "MD", "MS", "MX":
 		return true
 	}
 	return false
@@ -499,6 +505,16 @@ func (w *chanWorld) writerMain(ws WriterSpec) func() {
 				if err == nil {
 					n = int64(len(buf))
 				}
+			case "MX":
+				// a message no handler converts: the head handler panics, the call's recover guard raises an exception
+				w.mapMu.Lock()
+				delete(w.excOn, ws.Name)
+				w.curMX[ws.Name] = true
+				w.mapMu.Unlock()
+				err = w.ch.Write(struct{ Unsupported int }{1})
+				w.mapMu.Lock()
+				delete(w.curMX, ws.Name)
+				w.mapMu.Unlock()
 			case "RF", "MR", "MT":
 				var cs [][]byte
 				off := 0
@@ -549,6 +565,15 @@ func (w *chanWorld) writerMain(ws WriterSpec) func() {
 				w.mapMu.Lock()
 				op.hadExc = w.excOn[ws.Name] != nil
 				w.mapMu.Unlock()
+			}
+			if op.spec.Kind == "MX" && op.res == "ok" {
+				if op.hadExc {
+					op.res = "mexc"
+				} else {
+					// Write returned nil and no exception event reached the handlers: the panic was lost
+					op.res = "lost"
+					w.fail("C07", "panic-not-delivered", fmt.Sprintf("%s.%d: the head handler's panic for an unsupported message raised no exception event although the channel was open when the call began", op.w, op.idx))
+				}
 			}
 			if op.spec.Kind == "M" && err == nil {
 				w.mapMu.Lock()
@@ -991,7 +1016,7 @@ func runChanCase(c *ChanCase) *ChanResult {
 		c: c, s: s, ops: map[string][]*opRun{}, byID: map[byte]*chunkRun{}, rets: map[string][]string{},
 		cancels: map[string]context.CancelFunc{}, closeErr: map[string]error{}, failKeys: map[string]bool{},
 		firstRead: -1, serveRet: -1, closeRetStep: -1, winnerRet: -1, closeInvoked: -1,
-		closersDone: map[string]bool{}, ctxErrSeen: map[string]bool{}, excOn: map[string]error{}, lowErr: map[string]error{}, prevLoc: map[string]string{},
+		closersDone: map[string]bool{}, ctxErrSeen: map[string]bool{}, excOn: map[string]error{}, curMX: map[string]bool{}, lowErr: map[string]error{}, prevLoc: map[string]string{},
 	}
 	netty.VerifHook = func(obj interface{}, point string) { s.Gate(obj, point) }
 	w.tr = mock.NewTransport(s)
@@ -1473,6 +1498,10 @@ func (w *chanWorld) oracleQuiescent() {
 				w.fail("C07", "goroutine-stuck", fmt.Sprintf("%s is %s at quiescence after a failed %s", n, loc, w.fatalFault))
 			}
 		}
+	}
+	if vs.Closed == 1 && len(w.c.Closers) == 0 && w.faultsUsed == 0 && !w.parentDone && len(w.c.ReadCloses) == 0 {
+		// nobody asked for it and nothing failed: exceptions that the application's handler consumed must not close the channel
+		w.fail("C07", "closed-without-cause", "the channel is closed at quiescence although no Close was issued, no transport call failed and every exception was consumed by the exception handler")
 	}
 	n, fl, _ := w.tr.Lens()
 	if vs.Closed == 0 && w.faultsUsed == 0 {
